@@ -55,15 +55,22 @@ def gen(src, consts):
     if shape == ['If:not self.consumer_tags', 'If:not self.is_closed', 'Expr:self.remove_consumer_tag()']:
         # one pass over the tags seen at entry, then the list is cleared unconditionally
         repeats = False
-    elif shape == ['If:not self.consumer_tags', 'If:self.is_closed', 'While:self.consumer_tags']:
-        # closed channel: just forget the tags; otherwise cancel in rounds until no consumer is recorded
+    elif shape[:2] == ['If:not self.consumer_tags', 'If:self.is_closed'] and len(shape) >= 3:
+        # closed channel: just forget the tags; otherwise cancel - in rounds until no consumer is recorded
+        # (while loop), or in one pass followed by clearing the list
         closed_branch = [ast.unparse(x) for x in body[1].body if not is_logging(x)]
         if closed_branch != ['self.remove_consumer_tag()', 'return'] or body[1].orelse:
             raise ExtractError('stop_consuming: closed-channel branch changed: %r' % closed_branch)
-        wb = [x for x in body[2].body if not is_logging(x)]
-        if len(wb) != 1 or wb[0] is not loops[0]:
-            raise ExtractError('stop_consuming: while body is not the cancel loop')
-        repeats = True
+        rest = body[2:]
+        if len(rest) == 1 and isinstance(rest[0], ast.While) and ast.unparse(rest[0].test) == 'self.consumer_tags':
+            wb = [x for x in rest[0].body if not is_logging(x)]
+            if len(wb) != 1 or wb[0] is not loops[0]:
+                raise ExtractError('stop_consuming: while body is not the cancel loop')
+            repeats = True
+        elif rest[0] is loops[0] and [ast.unparse(x) for x in rest[1:]] in ([], ['self.remove_consumer_tag()']):
+            repeats = False
+        else:
+            raise ExtractError('stop_consuming: shape changed: %r' % shape)
     else:
         raise ExtractError('stop_consuming: shape changed: %r' % shape)
     # ---- Channel.process_data_events: dispatch by tag --------------------------------------------------
@@ -84,7 +91,13 @@ def gen(src, consts):
     # ---- Channel.close -------------------------------------------------------------------------------
     h = src.func('channel.py', 'Channel', 'close')
     txt = ast.unparse(h)
-    needed = ['if self._connection.is_closed or not self.is_open:', 'self.set_state(self.CLOSING)',
+    if 'if self._connection.is_closed or not self.is_open:' in txt:
+        guard, backs_off = 'if self._connection.is_closed or not self.is_open:', True
+    elif 'if self._connection.is_closed or self.is_closed:' in txt:
+        guard, backs_off = 'if self._connection.is_closed or self.is_closed:', False
+    else:
+        raise ExtractError('Channel.close: the early-return guard changed')
+    needed = [guard, 'self.set_state(self.CLOSING)',
               'self.stop_consuming()', 'except AMQPChannelError:', 'self.remove_consumer_tag()',
               'reply_code=reply_code', 'reply_text=reply_text', 'connection_adapter=self._connection',
               'finally:', 'self._inbound.clear()', 'self.set_state(self.CLOSED)']
@@ -101,9 +114,11 @@ def gen(src, consts):
             'def stopIteratesCopy : Bool := %s\n'
             '/-- stop_consuming cancels in rounds until no consumer is recorded, and clears the list only on a closed channel -/\n'
             'def stopRepeatsUntilEmpty : Bool := %s\n'
+            '/-- Channel.close() takes the forced path (sends nothing) unless the channel is OPEN; false: unless it is CLOSED -/\n'
+            'def closeBacksOffUnlessOpen : Bool := %s\n'
             '/-- a delivery whose tag has no callback yet waits for the channel lock (held by consume() until the callback is stored) -/\n'
             'def dispatchWaitsForLock : Bool := %s\n'
-            'end Amqp.Gen.Close\n' % (str(locked).lower(), str(copy).lower(), str(repeats).lower(), str(waits).lower()))
+            'end Amqp.Gen.Close\n' % (str(locked).lower(), str(copy).lower(), str(repeats).lower(), str(backs_off).lower(), str(waits).lower()))
 
 
 FILES = {'Close.lean': gen}
